@@ -635,9 +635,17 @@ pub fn split_into_extensions(rng: &mut Rng, schema: &SchemaModel) -> TsDoc {
                 let mut ext = TypeDef::new(t.kind, &t.name);
                 match t.kind {
                     TypeKind::Object | TypeKind::Interface if t.fields.len() >= 2 => {
-                        // keep interface-required fields in the base only if the interfaces stay there too
                         let k = 1 + rng.below(t.fields.len() - 1);
                         ext.fields = base.fields.split_off(k);
+                        // an object / interface may also gain its interfaces through the extension
+                        // (`extend type T implements I { … }`); the merged type is the same
+                        if !base.implements.is_empty() && rng.coin() {
+                            let j = rng.below(base.implements.len() + 1).min(rng.below(base.implements.len() + 1));
+                            ext.implements = base.implements.split_off(j);
+                        }
+                    }
+                    TypeKind::Object | TypeKind::Interface if !t.implements.is_empty() => {
+                        ext.implements = base.implements.split_off(0);
                     }
                     TypeKind::Enum if t.values.len() >= 2 => {
                         let k = 1 + rng.below(t.values.len() - 1);
